@@ -1,8 +1,8 @@
 (* C19 -- serialized objects round-trip exactly; malformed archives are rejected safely.
    Only the property theorems; proofs are in Proofs.v (chunk reader), Loader.v (arbitrary input),
-   Roundtrip.v (load after save), Mutation.v (over-running length fields).
+   Roundtrip.v (load after save), Mutation.v (over-running length fields), Session.v (the session map format).
    jp is the external JSON parser (parse + compact re-serialisation), a parameter of the model. *)
-From CppcmsV Require Import Base.Tac C19.Defs C19.Proofs C19.Loader C19.Roundtrip C19.Mutation.
+From CppcmsV Require Import Base.Tac C19.Defs C19.Proofs C19.Loader C19.Roundtrip C19.Mutation C19.SessDefs C19.Session.
 Local Open Scope N_scope.
 
 (* 1. the repaired bounds test of archive::next_chunk_size, in size_t (mod 2^64) arithmetic:
@@ -110,3 +110,41 @@ Theorem load_prefix_stable : forall jp t a b ptr r,
   blen (a ++ b) < M64 -> load jp t a ptr = Ok r -> load jp t (a ++ b) ptr = Ok r.
 Proof. exact load_ext. Qed.
 Print Assumptions load_prefix_stable.
+
+(* 8. the session map (which holds every object stored with session_interface::store_data) survives
+      save_data -> storage -> load_data: the records come back in order, and the map rebuilt from
+      them (data[key] = entry) is the saved one when its keys are distinct, as in a std::map.
+      save_data = SOk means: every key shorter than 1024 and every value shorter than 2 MiB bytes
+      (otherwise the C++ throws, theorem session_save_errors) *)
+Theorem session_data_roundtrip : forall m s, save_data m = SOk s -> load_data s = SOk m.
+Proof. exact sess_roundtrip. Qed.
+Print Assumptions session_data_roundtrip.
+Theorem session_map_roundtrip : forall m s,
+  save_data m = SOk s -> sess_keys_distinct m = true ->
+  match load_data s with SOk l => sess_map l = m | SErr _ => False end.
+Proof. exact sess_map_roundtrip. Qed.
+Print Assumptions session_map_roundtrip.
+Theorem session_save_errors : forall m e, save_data m = SErr e -> e = SKeyLong \/ e = SValLong.
+Proof. exact save_data_errors. Qed.
+Print Assumptions session_save_errors.
+Definition ex_sess : list sentry := [([97], true, [1;0;2]); ([], false, []); ([98;0;99], false, [255])].
+Example session_roundtrip_nonvacuous :
+  save_data ex_sess = SOk [1;28;0;0;97;1;0;2; 0;0;0;0; 3;8;0;0;98;0;99;255]
+  /\ sess_keys_distinct ex_sess = true /\ load_data [1;28;0;0;97;1;0;2; 0;0;0;0; 3;8;0;0;98;0;99;255] = SOk ex_sess.
+Proof. repeat split; vm_compute; reflexivity. Qed.
+
+(* 9. load_data on arbitrary bytes: it returns records that tile the buffer exactly (4 + key + value
+      bytes each, summing to the buffer length: nothing outside the buffer is returned) or throws one of
+      its two format exceptions; it never reads outside the buffer (SOob) and always terminates (SFuel) *)
+Theorem session_load_total_and_safe : forall buf,
+  match load_data buf with
+  | SOk l => sess_size l = blen buf
+  | SErr e => e = SPack \/ e = SData
+  end.
+Proof. exact sess_load_safe. Qed.
+Print Assumptions session_load_total_and_safe.
+Example session_load_nonvacuous :
+  load_data [2;8;0;0;97;98;99] = SOk [([97;98], false, [99])]
+  /\ load_data [2;8;0;0;97;98] = SErr SData /\ load_data [2;8;0;0;97;98;99;0;0] = SErr SPack
+  /\ sess_map [([97], false, [1]); ([98], true, []); ([97], true, [2])] = [([97], true, [2]); ([98], true, [])].
+Proof. repeat split; vm_compute; reflexivity. Qed.
